@@ -80,3 +80,66 @@ func VerifC11NextStep() {
 	vndObserve("idx", uint64(idx))
 	vndObserve("idx2", uint64(idx2))
 }
+
+func init() { vndRegister("VerifC11FailedInsertRollback", VerifC11FailedInsertRollback) }
+
+// VerifC11FailedInsertRollback: a transaction whose insert fails (the reservation is given back at
+// once) keeps running; meanwhile another transaction (here: nested on the same goroutine, or after
+// it) inserts and commits, possibly receiving the very offset that was given back; then the first
+// transaction rolls back or commits nothing else. The second transaction's row must stay live with
+// its value, Count must add up and the next insert must not collide with it.
+func VerifC11FailedInsertRollback() {
+	w := vNewWorld(vndParam("cap"), vInt64, vndParam("fam"), Options{})
+	v := vndU64("v")
+	var off2 uint32
+	abort := vndChoice("abort", 2) == 1
+	nested := vndChoice("nested", 2) == 1
+	err := w.c.Query(func(txn *Txn) error {
+		_, ierr := txn.Insert(func(r Row) error {
+			r.SetInt64("a", 99)
+			return vErrAbort
+		})
+		vndAssert(ierr != nil, "the failing insert did not report its error")
+		if nested {
+			var e2 error
+			off2, e2 = w.c.Insert(func(r Row) error {
+				r.SetInt64("a", int64(v))
+				return nil
+			})
+			vndAssert(e2 == nil, "nested insert failed")
+		}
+		if abort {
+			return vErrAbort
+		}
+		return nil
+	})
+	vndAssert((err != nil) == abort, "Query result")
+	// KF-failed-insert-committed: when the outer transaction commits, the failed insert is resurrected
+	vndKnown("KF-failed-insert-committed", !abort)
+	if !nested {
+		var e2 error
+		off2, e2 = w.c.Insert(func(r Row) error {
+			r.SetInt64("a", int64(v))
+			return nil
+		})
+		vndAssert(e2 == nil, "insert failed")
+	}
+	vndAssert(w.slotOf(off2) < 0, "the insert received the offset of a pre-existing row")
+	vndAssert(w.c.Count() == w.count+1, "Count differs from the number of live rows")
+	w.c.QueryAt(off2, func(r Row) error {
+		got, ok := r.Int64("a")
+		vndAssert(ok && uint64(got) == v, "the committed row lost its value")
+		return nil
+	})
+	live := vLiveSet(w.c, vMaxRows+2)
+	found := false
+	for _, o := range live {
+		if o == off2 {
+			found = true
+		}
+	}
+	vndAssert(found && len(live) == w.count+1, "the committed row is not live (or another row appeared)")
+	off3, e3 := w.c.Insert(func(r Row) error { return nil })
+	vndAssert(e3 == nil && off3 != off2 && w.slotOf(off3) < 0, "a later insert collided with a live row")
+	vndObserve("off2", uint64(off2))
+}
